@@ -249,4 +249,43 @@ theorem handleGetex_persist_run (c : Ctx) (s : State) (k opt : Bytes) (rest : Li
   rw [run_setExpiry_some c s s' k none false _ hs]
   rfl
 
+/-! ### RENAME -/
+
+theorem getExpiry_eq_bind (s : State) (i : Nat) (k : Bytes) : getExpiry s i k = (s.lookup i k).bind (·.exp) := by
+  unfold getExpiry; cases s.lookup i k <;> rfl
+
+/-- **RENAME of a live key onto another name** (any destination: absent, stored with or without a deadline,
+    stale): the reply is OK, the destination holds the moved value under the SOURCE's deadline (or none), the
+    source is gone and no other key of the database changes -/
+theorem handleRename_run (c : Ctx) (s : State) (old new : Bytes) (e : Entry) (hm : c.cfg.maxMemory = 0)
+    (h : s.lookup c.db old = some e) (hlive : e.expired c.now = false) (hv : e.val ≠ .nil) (hne : old ≠ new) :
+    ∃ s', (handleRename c [b "rename", old, new]).run c s = (s', .done (.ok okReply)) ∧
+      s'.lookup c.db new = some ⟨e.val, e.exp⟩ ∧ s'.lookup c.db old = none ∧
+      ∀ k2, old ≠ k2 → new ≠ k2 → s'.lookup c.db k2 = s.lookup c.db k2 := by
+  obtain ⟨v, ex⟩ := e
+  simp only at hv ⊢
+  have hg := getValues_live c s old _ h hlive
+  obtain ⟨hs1, hs2, hs3⟩ := setValues_single c s new v hm
+  have hbeq : (old == new) = false := by simpa using hne
+  have hge : getExpiry s c.db old = ex := by simp [getExpiry, h]
+  have hgn := getExpiry_eq_bind s c.db new
+  by_cases heq : ex = (s.lookup c.db new).bind (·.exp)
+  · refine ⟨deleteKey (setValues c s [(new, v)]).1 c.db old, ?_, ?_, ?_, ?_⟩
+    · cases v <;>
+        simp_all [handleRename, setOrErr]
+    · rw [lookup_deleteKey, if_neg hne, hs2, heq]
+    · rw [lookup_deleteKey, if_pos rfl]
+    · intro k2 h1 h2
+      rw [lookup_deleteKey, if_neg h1, hs3 k2 h2]
+  · obtain ⟨s2, hx, hx1, hx2, _⟩ := setExpiry_present c (setValues c s [(new, v)]).1 new _ ex hs2
+    refine ⟨deleteKey s2 c.db old, ?_, ?_, ?_, ?_⟩
+    · subst hge
+      have hr := fun (k : (Prim.setExpiry new (getExpiry s c.db old) false).Res → Prog Res) => run_setExpiry_some c _ s2 new _ false k hx
+      cases v <;>
+        simp_all [handleRename, setOrErr]
+    · rw [lookup_deleteKey, if_neg hne, hx1]
+    · rw [lookup_deleteKey, if_pos rfl]
+    · intro k2 h1 h2
+      rw [lookup_deleteKey, if_neg h1, hx2 k2 h2, hs3 k2 h2]
+
 end Sugar
